@@ -7,6 +7,7 @@ import (
 	"crypto/sha256"
 	"encoding/json"
 	"fmt"
+	"hash/fnv"
 	"io"
 	"os"
 	"reflect"
@@ -78,6 +79,15 @@ func absAny(x any) V {
 // BuildAny constructs a packet, a packet list (k = LIST) or a compound packet.
 func BuildAny(v any) any {
 	m := v.(V)
+	// one value in three is laid out in arena mode (abs.ArenaOn); which ones is a function of the value
+	abs.ArenaOn = false
+	if js, err := json.Marshal(v); err == nil {
+		h := fnv.New32a()
+		h.Write(js)
+		abs.ArenaOn = h.Sum32()%3 == 0
+	}
+	abs.ArenaReset()
+	defer func() { abs.ArenaOn = false }()
 	if m["k"] == "LIST" {
 		return abs.BuildList(m["pkts"])
 	}
@@ -154,6 +164,40 @@ func (s *State) Build(h int, v any) V {
 	buildMu.Unlock()
 	delete(s.in, h)
 	return s.emit(V{"op": "build", "h": h, "v": v})
+}
+
+// BuildNow builds v after setting every "ntp" field in it to the wall-clock time of the call plus off (as an
+// NTP timestamp). The event records the offset, so that re-running the case relates the value to the clock of
+// the re-run (a behaviour that depends on the distance between a timestamp and "now" is otherwise unrepeatable).
+func (s *State) BuildNow(h int, v any, off time.Duration) V {
+	now := time.Now().Add(off)
+	ntp := abs.U64((uint64(now.Unix())+2208988800)<<32 | uint64(now.Nanosecond())<<32/1000000000)
+	var patch func(x any)
+	patch = func(x any) {
+		switch t := x.(type) {
+		case V:
+			for k, e := range t {
+				if k == "ntp" {
+					t[k] = ntp
+				} else {
+					patch(e)
+				}
+			}
+		case L:
+			for _, e := range t {
+				patch(e)
+			}
+		}
+	}
+	patch(v)
+	buildMu.Lock()
+	abs.Spare = [][]byte{}
+	s.Pk[h] = BuildAny(v)
+	s.spare[h] = abs.Spare
+	abs.Spare = nil
+	buildMu.Unlock()
+	delete(s.in, h)
+	return s.emit(V{"op": "build", "h": h, "v": v, "ntpnow": int(off)})
 }
 
 // Adopt stores an already constructed real packet under handle h and logs
@@ -611,29 +655,29 @@ func (s *State) DatagramParts(b, h int, parts []int) V {
 // UnitDecode runs an exported sub-structure decoder on buffer b.
 // unitReceiver returns a decoder bound to one fresh value of the exported sub-structure and the
 // projection of that value.
-func unitReceiver(unit string) (func([]byte) error, func() any) {
+func unitReceiver(unit string) (func([]byte) error, func() any, any) {
 	switch unit {
 	case "hdr":
 		x := new(rtcp.Header)
-		return x.Unmarshal, func() any { return abs.Hdr(*x) }
+		return x.Unmarshal, func() any { return abs.Hdr(*x) }, x
 	case "rb":
 		x := new(rtcp.ReceptionReport)
-		return x.Unmarshal, func() any { return abs.RB(*x) }
+		return x.Unmarshal, func() any { return abs.RB(*x) }, x
 	case "chunk":
 		x := new(rtcp.SourceDescriptionChunk)
-		return x.Unmarshal, func() any { return abs.SDESChunk(*x) }
+		return x.Unmarshal, func() any { return abs.SDESChunk(*x) }, x
 	case "item":
 		x := new(rtcp.SourceDescriptionItem)
-		return x.Unmarshal, func() any { return abs.SDESItem(*x) }
+		return x.Unmarshal, func() any { return abs.SDESItem(*x) }, x
 	case "rl":
 		x := new(rtcp.RunLengthChunk)
-		return x.Unmarshal, func() any { return abs.RunLength(x) }
+		return x.Unmarshal, func() any { return abs.RunLength(x) }, x
 	case "sv":
 		x := new(rtcp.StatusVectorChunk)
-		return x.Unmarshal, func() any { return abs.StatusVector(x) }
+		return x.Unmarshal, func() any { return abs.StatusVector(x) }, x
 	case "delta":
 		x := new(rtcp.RecvDelta)
-		return x.Unmarshal, func() any { return abs.Delta(x) }
+		return x.Unmarshal, func() any { return abs.Delta(x) }, x
 	}
 	panic("exec: unknown unit " + unit)
 }
@@ -644,8 +688,11 @@ func (s *State) UnitDecode(unit string, b int) V {
 	var err error
 	var out any = none
 	a0 := s.allocNow()
+	var dec func([]byte) error
+	var proj func() any
+	var obj any
 	pan, msg := guardedDecode(func() string { return fmt.Sprintf("udec %s %v", unit, orig) }, func() {
-		dec, proj := unitReceiver(unit)
+		dec, proj, obj = unitReceiver(unit)
 		if err = dec(in); err == nil {
 			out = proj()
 		}
@@ -654,7 +701,35 @@ func (s *State) UnitDecode(unit string, b int) V {
 	if pan || err != nil {
 		out = none
 	}
-	return s.emit(decodeEvent("udec", unit, b, 0, in, orig, pan, msg, err, alloc, out))
+	ev := s.emit(decodeEvent("udec", unit, b, 0, in, orig, pan, msg, err, alloc, out))
+	if !pan && err == nil && !s.Quiet && (unit == "sv" || unit == "chunk") {
+		// the caller edits the decoded value in place; the same octets decoded afterwards give what they gave before
+		edited := false
+		walkSlices(reflect.ValueOf(obj), func(sl reflect.Value) {
+			for i := 0; i < sl.Len(); i++ {
+				scribbleElem(sl.Index(i), false)
+				edited = true
+			}
+		})
+		if edited {
+			var err2 error
+			var out2 any = none
+			in2 := append([]byte(nil), orig...)
+			pan2, msg2 := guardedDecode(func() string { return fmt.Sprintf("udec %s %v", unit, orig) }, func() {
+				dec2, proj2, _ := unitReceiver(unit)
+				if err2 = dec2(in2); err2 == nil {
+					out2 = proj2()
+				}
+			})
+			if pan2 || err2 != nil {
+				out2 = none
+			}
+			e2 := decodeEvent("udec", unit, b, 0, in2, orig, pan2, msg2, err2, 0, out2)
+			e2["again"] = true
+			s.emit(e2)
+		}
+	}
+	return ev
 }
 
 // UnitDecodeInto decodes buffer b into a sub-structure value that has already decoded prev; the event
@@ -665,14 +740,14 @@ func (s *State) UnitDecodeInto(unit string, prev []byte, b int) V {
 	var err, ferr error
 	var out, fout any = none, none
 	fpan, _ := guardedDecode(func() string { return fmt.Sprintf("udec %s %v", unit, orig) }, func() {
-		dec, proj := unitReceiver(unit)
+		dec, proj, _ := unitReceiver(unit)
 		if ferr = dec(append([]byte(nil), orig...)); ferr == nil {
 			fout = proj()
 		}
 	})
 	a0 := s.allocNow()
 	pan, msg := guardedDecode(func() string { return fmt.Sprintf("udec %s %v after %v", unit, orig, prev) }, func() {
-		dec, proj := unitReceiver(unit)
+		dec, proj, _ := unitReceiver(unit)
 		_ = dec(append([]byte(nil), prev...))
 		if err = dec(in); err == nil {
 			out = proj()
@@ -959,6 +1034,20 @@ func scribbleElem(e reflect.Value, spare bool) {
 			e.SetUint(0xC7 & (1<<uint(e.Type().Bits()) - 1))
 		} else {
 			e.SetUint(e.Uint() ^ 1)
+		}
+	case reflect.Bool:
+		if spare {
+			e.SetBool(true)
+		}
+	case reflect.Struct:
+		// spare elements of a slice of structs: every numeric field (live struct elements are left alone:
+		// their own slices were visited already)
+		if spare {
+			for i := 0; i < e.NumField(); i++ {
+				if e.Type().Field(i).IsExported() {
+					scribbleElem(e.Field(i), true)
+				}
+			}
 		}
 	}
 }
